@@ -60,7 +60,7 @@ func runMain(m *testing.M) int {
 }
 
 func freeAddr() string {
-	ln, err := net.Listen("tcp", "127.0.0.1:0")
+	ln, err := hx.Listen("tcp", "127.0.0.1:0")
 	if err != nil {
 		panic(err)
 	}
